@@ -5,6 +5,18 @@ NOTES = ("Every check runs: translator -> lake build of the property's theorem m
          "the hook can record the value actually returned (no line is deleted, behaviour is unchanged).")
 NOT_YET = {}
 CLAIMS = {
+    "C16": {
+        "text": "PARTIAL. Finite part (22 convertible reference models x 3 recorded corpora): decided by evaluating the implementation and "
+                "the compiled Lean model on every recorded input on every run and comparing both with the record - an exhaustive evaluation "
+                "of a finite table, not a theorem. For-all part (three Llama 2 sources): Lean theorems that a tokenizer is independent of "
+                "metadata (native file = SentencePiece conversion on every input, fields compared each run) and that the two whitespace-"
+                "marker normalizations agree on every text; equality of the JSON-converted source on all texts is explored by generation.",
+        "design_ref": "DESIGN.md §6 C16",
+        "note": "A kernel proof over 30k-250k-entry vocabularies is out of reach (decide does not scale); the recorded table is finite and "
+                "is evaluated completely. The Tokenizers-vs-SentencePiece Llama 2 equality depends on that vocabulary's merges and has no "
+                "general theorem.",
+        "technique": "Exhaustive evaluation of the finite recorded table on implementation and Lean model (correspondence) + Lean 4 theorems for source equivalence",
+    },
     "C17": {
         "text": "PARTIAL (foreign parsers not modelled). Machine-checked Lean theorems for every byte string on the modelled loaders: the "
                 "character-map blob loader never panics and checks its size field; decoding a native file never reads past the input, "
